@@ -47,18 +47,18 @@ class LUW(dict):
 
 
 for (n, m) in ((12, 3), (0, 0), ((1 << 64) - 1, 1)):
-    inst(P, 'c06_sparse_n%d_m%d' % (n, m), SC(n, m), tier='thorough', unwind=258, stubs=SPARSE, cap=900, cap_thorough=3600, mem=30,
+    inst(P, 'c06_sparse_n%d_m%d' % (n, m), SC(n, m), tier='deep', unwind=258, stubs=SPARSE, cap=900, cap_thorough=3600, mem=30,
          desc='SparseVector (built by the real builder, universe %d, %d symbolic positions): serialize -> exact size -> load -> == and select' % (n, m), shape={'universe': n, 'ones': m}).unwindset = LUW(n, m)
 for (n, maxv) in ((3, 1), (4, 2)):
     fw = sorted(feasible_fw(n, maxv))[0]
     d = wm_uw(n, bit_len(maxv))
     d.update({r'memcmp': 260, r'c06::': 8})
-    inst(P, 'c06_wm_n%d_max%d' % (n, maxv), 'c06::wavelet_matrix(%d, %d, %d)' % (n, maxv, fw), tier='thorough', unwind=258, unwindset=d, stubs=['bvspec'], cap=900, cap_thorough=3600, mem=30,
+    inst(P, 'c06_wm_n%d_max%d' % (n, maxv), 'c06::wavelet_matrix(%d, %d, %d)' % (n, maxv, fw), tier='deep', unwind=258, unwindset=d, stubs=['bvspec'], cap=900, cap_thorough=3600, mem=30,
          desc='WaveletMatrix (%d symbolic items <= %d, assembled from parts): serialize -> exact size -> load -> == and get' % (n, maxv), shape={'len': n, 'max_value': maxv})
 for name, (units, sw) in {'one_small': ([(1, 1)], 1), 'two_small': ([(1, 1), (1, 2)], 1)}.items():
     d = rl_uw(units)
     d.update({r'memcmp': 260, r'c06::': 8})
-    inst(P, 'c06_rl_%s' % name, 'c06::rl(&[%s], %d)' % (', '.join('(%d, %d)' % u for u in units), sw), tier='thorough', unwind=258, unwindset=d,
+    inst(P, 'c06_rl_%s' % name, 'c06::rl(&[%s], %d)' % (', '.join('(%d, %d)' % u for u in units), sw), tier='deep', unwind=258, unwindset=d,
          stubs=['simple_sds::rl_vector::index::SampleIndex::new => stubs::sample_index_new_contract'], cap=900, cap_thorough=3600, mem=30,
          desc='RLVector (%s, symbolic runs, assembled from parts): serialize -> exact size -> load -> ==' % name, shape={'runs': units})
 
